@@ -96,6 +96,36 @@ CLAIMED = {
         note=("Trusted: Coq kernel; snapshot (SKIPPED_TYPES); generator, runner. rich is absent here: colours not exercised. Open findings: D24 (show='trusted' level jump), D15c (key named key_types), "
               "D31 (SliceNode / FunctionNode@0 display a name their audit ignores). D15 (slices, bound methods, state-less objects) was repaired in /repo."),
         ref="DESIGN.md section 4 C13"),
+    "C01": dict(
+        technique="Coq proof (audit examines every node; every archive-named resolution is vouched) + traced-load correspondence + canary search",
+        text=("coq/props/C01.v over the executable model of get_tree (29 loaders, arbitrary JSON), the graph audit with its cycle guard, and the order in which construct() resolves names: "
+              "(1) every tree get_tree builds has pairwise-distinct memoised ids and well-formed child shapes (induction over get_tree, all kinds); (2) hence when load's audit passes, NO node at any depth, "
+              "slot, shared or cyclic position has an audited name outside its trusted list; (3) every gettype/_import_obj call construct() then makes with names taken from the archive is made by a node of "
+              "the tree and resolves a name in that node's trusted list (caller's list ++ inherited ++ kind defaults) -- 'the name that was audited is the object that is used'. The full statement over ALL "
+              "name-bearing events is false of the faithful model: three refuted theorems (vm_compute witnesses) = open findings D01 (MethodNode attribute), D03 (bit-generator name), D04 (fixed constructor under a "
+              "foreign audited name). Tie: loads() of generated archives x trusted specs runs with gettype/_import_obj/import_module/getattr wrapped from outside; the observed resolution trace must equal the model's "
+              "(subset when construct raises). Search oracle: canary package ledger + type of the returned object."),
+        note=("Trusted: Coq kernel; snapshot; wrappers/canary instrumentation; what a vouched class does in its own __new__/__setstate__ is the caller's responsibility; np.load(allow_pickle=False)/load_npz trusted. "
+              "D02 (OperatorFuncNode) and D05 (LossNode) were repaired in /repo."),
+        ref="DESIGN.md section 4 C01"),
+    "C19": dict(
+        technique="Coq proof of totality/fuel-freedom and tree invariants on arbitrary JSON + schema/byte mutation runs under alarm and state snapshots",
+        text=("coq/props/C19.v: on EVERY JSON value the model of get_tree returns a tree or one of the ordinary exceptions and never the fuel artefact when nesting depth < fuel (induction over all loaders); "
+              "every tree built satisfies the invariants the audit relies on; and 'terminate promptly' is refuted for the audit (29-node ladder -> 32767 visits, finding D11). The model's predicted outcome "
+              "(exception enum, rows, printed text) is compared with /repo on archives with 1-3 stacked schema-level mutations. Clean failure itself is observed: the same archives and byte-level mutations of real "
+              "dumps run in workers under SIGALRM with snapshots of cwd, environ, sys.path, numpy global RNG and scratch-dir listing; BaseException, hang, worker death or state change is a violation."),
+        note=("Partial by nature: byte-level corruption is handled by zipfile/json/numpy/scipy (not modelled; exercised only). Trusted: Coq kernel, worker instrumentation. Open finding D11 (exponential audit)."),
+        ref="DESIGN.md section 4 C19"),
+    "C20": dict(
+        technique="Coq proof of schedule independence for local-write steps + regenerated frame table + fresh/history/threads differential runs",
+        text=("coq/props/C20.v: for steps that read the module tables and write only their own call's state, under ANY schedule each thread ends in the state of its sequential run (induction over the schedule), "
+              "with a refuted witness when a step writes a shared cell; the per-run obligation C20_frame_table states that the AST scan of skops/{io,card,cli,utils} finds no call-time write to module-level "
+              "state (global statements, stores into / mutating calls on module objects, lru_cache/cache decorators, mutable defaults) -- re-checked against /repo on every run. Observed on the implementation: "
+              "each generated API operation is computed first, after a random history, from 8 threads (switch interval 1e-6), and as the first call of a fresh process; module-level containers are hashed before/after; "
+              "separate Card instances are checked not to share sections/metrics."),
+        note=("Partial by nature: real preemption inside C extensions / free-threaded builds, singledispatch's cache, zipfile internals cannot be exhibited. Trusted: AST scan (fail-closed on unknown patterns only as far as listed), "
+              "thread harness."),
+        ref="DESIGN.md section 4 C20"),
 }
 
 PENDING_REASON = "check not built yet (see DESIGN.md section 8 build order); not claimed in this revision"
